@@ -21,6 +21,7 @@ RULE = ("Hypothesis trees: depth <= 4 (6 in thorough), fan-out <= 4 (wide trees:
         "(component kind, one property value, add / remove / duplicate a subcomponent, swapped multiplicities [x,x,y] vs [x,y,y]) "
         "makes the trees unequal in both directions; deepcopy, pickle and serialise-and-parse copies are equal both ways and "
         "serialise identically. Non-trivial: >= 3 components and a repeated subcomponent name; distinct by hash.")
+RULE += ' Rounds 7-8: parents with 8-129 children whose own children are permuted in the twin; one component object at two places of the tree; result lists must not alias the tree.'
 ASSUMPTIONS = ["parameter-only differences are not asserted either way", "generated texts contain no backslash (RC-B would change them on serialise-and-parse; C01/C07 own that)"]
 REQUIRED_CLASSES = ["custom-zone", "custom-zone:rule-with-interval", "custom-zone:rule-with-count", "custom-zone:rule-with-exdate", "repeated-sub-name", "unknown-component", "perturb:kind", "perturb:value", "perturb:zone", "perturb:add-sub", "perturb:remove-sub", "perturb:dup-sub",
                     "perturb:swap-mult", "root:VCALENDAR", "zoned-value"]
